@@ -166,12 +166,14 @@ def check(run):
         if run.tier == "thorough":
             cases += [(1, 1, 0.0, -0.5, 0.1), (0, 1, 0.0, 1.5, 0.01), (1, 1, 10.0, 10.7, 0.1),
                       (1, 1, 86400.25, 86400.25 + 0.25 + 1.5e-8, 0.25), (0, 0, 5000.0, 5000.0 - 0.1 - 2e-9, 0.1), (0, 0, 1.0, 0.77, 0.05), (1, 0, 5000.0, 5000.0, 0.1)]
-        for hc, hk, t0, t1, mx in cases:
+        # a hand-written Impl may declare its maximum step as a float or an int constant (the runtime accepts any positive constant)
+        cases = [c + ("double",) for c in cases] + [(0, 0, 0.0, 0.73, 0.1, "float"), (1, 1, 2.0, 1.17, 0.3, "float"), (0, 1, 0.0, -5.5, 2, "int"), (1, 0, 1.0, 7.25, 2, "int")]
+        for hc, hk, t0, t1, mx, tag_type in cases:
             run.native_runs += 1
-            good, why, steps = cxx_runtime.native_c10(bool(hc), bool(hk), t0, t1, mx)
+            good, why, steps = cxx_runtime.native_c10(bool(hc), bool(hk), t0, t1, mx, tag_type)
             if not good:
                 cfails += 1
-                run.findings.append(Finding("C10.cxx.processUpdate.native_sweep", f"u{hc}c{hk}", f"compiled C++ runtime (control={bool(hc)}, calibration={bool(hk)}) {t0!r}->{t1!r} max {mx}: {why}", {"language": "c++", "configuration": {"has_control": bool(hc), "has_calibration": bool(hk)}, "inputs": {"t0": t0, "t1": t1, "max_dt_sec": mx}, "native_steps": steps[:50], "oracle_verdict": why}, True))
+                run.findings.append(Finding("C10.cxx.processUpdate.native_sweep", f"u{hc}c{hk}", f"compiled C++ runtime (control={bool(hc)}, calibration={bool(hk)}, max_dt_sec declared {tag_type}) {t0!r}->{t1!r} max {mx}: {why}", {"language": "c++", "configuration": {"has_control": bool(hc), "has_calibration": bool(hk)}, "inputs": {"t0": t0, "t1": t1, "max_dt_sec": mx, "tag_type": tag_type}, "native_steps": steps[:50], "oracle_verdict": why}, True))
                 break
         run.bounded.append({"what": "compiled C++ ManagedFilter with a recording Impl: step traces judged by stepping_ok, incl. times of 5000 s / 86400 s with microsecond remainders", "bound": f"{len(cases)} (configuration, t0, t1, max_dt) cases", "failures": cfails, "counted_as_proved": False})
     except ImportError:
